@@ -202,6 +202,9 @@ def numpy_oracle(seed):
                      ([0], slice(None), [1]), np.int64(0), np.uint8(1), (np.int32(-1), Ellipsis),
                      'a', 1.5, {}, (slice(0, 2, 0),), (None, None, Ellipsis, None), ([True, False],),
                      (Ellipsis, Ellipsis), [[0, 0], [1, 1]], np.array([], dtype=int), (0,) * (len(shape) + 1),
+                     np.array([True, False] * 8)[:shape[0] + 2], np.array([True, False] * 8)[:max(shape[0] - 1, 0)],
+                     np.array([True] * shape[0] + [False, False]), (slice(None), np.array([True] * (shape[-1] + 1))),
+                     [True, False] * 5, np.ones((shape[0] + 1,) + shape[1:], dtype=bool),
                      slice('a', None), (np.array([0]), np.array([True] + [False] * (shape[-1] - 1)) if len(shape) > 1 else 0)]
             for ix in exprs:
                 n += 1
